@@ -331,9 +331,13 @@ def mutate_text(rng, s):
             w = rng.choice(["wsh(", "sh(", "tr(", "{", "and_v(", "c:", "v:", "a:", "thresh(1,", "(", "["])
             s = s[:i] + w * depth + s[i:]
         elif c < 0.33:
-            depth = rng.choice([130, 1500])
-            key = "a" * 64
-            s = "tr(" + key + "," + "{pk(" + key + ")," * depth + "pk(" + key + ")" + "}" * depth + ")"
+            depth = rng.choice([127, 128, 129, 1500])
+            key = "a34b99f22c790c4e36b2b3c2c35a36db06226e41c692fc82b8b56ac1c540c5bd"
+            leaf = "pk(" + key + ")"
+            if rng.random() < 0.5:
+                s = "tr(" + key + "," + ("{" + leaf + ",") * depth + leaf + "}" * depth + ")"      # right spine
+            else:
+                s = "tr(" + key + "," + "{" * depth + leaf + ("," + leaf + "}") * depth + ")"      # left spine
         elif c < 0.45:
             s = s[:i] + rng.choice(["é", "ß", " ", "\x00", "１", "İ", "퟿", "#", "'", "h", "/", "*", "<0;1>", ",", ")", "(", "=", "\n", " "]) + s[i:]
         elif c < 0.6 and n:
